@@ -1,13 +1,23 @@
 """Run the quick (or thorough) command of every check registered in MANIFEST.json, sequentially; summarise.
-usage: run_all.py [quick|thorough] [C01 C06 ...]"""
+usage: run_all.py [quick|thorough] [C01 C06 ... | X01 X04 ... | ext]
+The extension checks (checks/x0N_*.py, not in MANIFEST.json) run only when named (Xnn) or with the word "ext"."""
 import json, os, subprocess, sys, time
 VERIF = os.path.dirname(os.path.dirname(os.path.abspath(__file__)))
 tier = sys.argv[1] if len(sys.argv) > 1 and sys.argv[1] in ("quick", "thorough") else "quick"
-only = [a for a in sys.argv[1:] if a.startswith("C")]
+import glob
+only = [a for a in sys.argv[1:] if a.startswith(("C", "X"))]
 m = json.load(open(os.path.join(VERIF, "MANIFEST.json")))
 rows = []
-for c in m["checks"]:
-    if only and c["property_id"] not in only:
+ext = []
+for f in sorted(glob.glob(os.path.join(VERIF, "checks", "x0*_*.py"))):
+    b = os.path.basename(f)
+    if not b.endswith("_driver.py") and ("ext" in sys.argv[1:] or b[:3].upper() in only):
+        ext.append({"property_id": b[:3].upper(), "quick_cmd": "/venv/bin/python checks/%s quick" % b,
+                    "thorough_cmd": "/venv/bin/python checks/%s thorough" % b})
+if "ext" in sys.argv[1:] and not [a for a in only if a.startswith("C")]:
+    m = {"checks": []}
+for c in m["checks"] + ext:
+    if only and c["property_id"] not in only and c not in ext:
         continue
     cmd = c["quick_cmd"] if tier == "quick" else c.get("thorough_cmd", c["quick_cmd"])
     t0 = time.time()
